@@ -24,15 +24,17 @@ struct C18 {
 
   C18(Ctx &cx) : c(cx), s(cx), w(s) { for (int i = 0; i < 16; i++) { m[i].restart = i & 1; m[i].independent = i & 2; m[i].keep_done = i & 4; m[i].act_clears = !(i & 8); } }
 
-  void build(uint8_t nid, const uint32_t id[4]) {
+  bool lss_off = false;   // the identity object lacks sub-index 4: the LSS slave cannot compare its address and stays out of service - its frames are still LSS frames
+  void build(uint8_t nid, const uint32_t id[4], bool incomplete = false) {
+    lss_off = incomplete;
     s.nodeid = nid; nodeid = nid; for (int i = 0; i < 4; i++) ident[i] = id[i];
     uint8_t *er = s.var<uint8_t>("1001", 0);
     s.add(CO_KEY(0x1001, 0, CO_OBJ____PR_), CO_TUNSIGNED8, (CO_DATA)er);
     s.add(CO_KEY(0x1000, 0, CO_OBJ_D___R_), CO_TUNSIGNED32, 0);
     s.add(CO_KEY(0x1014, 0, CO_OBJ__N__RW), CO_TEMCY_ID, (CO_DATA)s.var<uint32_t>("1014", 0x80));
     s.add(CO_KEY(0x1017, 0, CO_OBJ_____RW), CO_THB_PROD, (CO_DATA)s.var<uint16_t>("1017", 0));
-    s.add(CO_KEY(0x1018, 0, CO_OBJ_D___R_), CO_TUNSIGNED8, 4);
-    for (int i = 0; i < 4; i++) s.add(CO_KEY(0x1018, i + 1, CO_OBJ_____R_), CO_TUNSIGNED32, (CO_DATA)s.var<uint32_t>("1018:n", id[i]));
+    s.add(CO_KEY(0x1018, 0, CO_OBJ_D___R_), CO_TUNSIGNED8, incomplete ? 3 : 4);
+    for (int i = 0; i < (incomplete ? 3 : 4); i++) s.add(CO_KEY(0x1018, i + 1, CO_OBJ_____R_), CO_TUNSIGNED32, (CO_DATA)s.var<uint32_t>("1018:n", id[i]));
     s.add(CO_KEY(0x1200, 0, CO_OBJ_D___R_), CO_TUNSIGNED8, 2);
     s.add(CO_KEY(0x1200, 1, CO_OBJ_DN__R_), CO_TUNSIGNED32, 0x600); s.add(CO_KEY(0x1200, 2, CO_OBJ_DN__R_), CO_TUNSIGNED32, 0x580);
     s.init(); s.start(); s.clear_tx(); s.clear_ev();
@@ -40,6 +42,7 @@ struct C18 {
   // model step: expected reaction of one model to one LSS frame
   Exp step(Model &x, const Frame &f) {
     Exp e; uint8_t cs = f.d[0]; uint32_t a = f.u32(1);
+    if (lss_off) return e;     // out of service: no state, no answer, no store (and, like every LSS frame, never handed on)
     auto selective = [&](int pos) {      // pos 0..3
       if (x.mode != 1) return;           // switch-state-selective is a waiting-state service
       if (!x.independent) x.idn = 0;
@@ -186,7 +189,8 @@ void case_random(Ctx &c) {
   C18 x(c); uint32_t id[4];
   for (int i = 0; i < 4; i++) { uint32_t r = c.t.below(4); id[i] = r == 0 ? 0 : r == 1 ? 0xFFFFFFFFu : r == 2 ? 5 : c.t.u32(); }
   uint8_t nid = c.t.chance(30) ? 255 : (uint8_t)(1 + c.t.below(127));
-  x.build(nid, id);
+  bool incomplete = c.param == 1 && c.t.below(8) == 0;
+  x.build(nid, id, incomplete); if (incomplete) c.cls("identity-object-without-serial-number");
   int steps = 0;
   while (!c.t.exhausted() && steps < 100) {
     steps++; c.ops++;
@@ -207,7 +211,7 @@ void case_random(Ctx &c) {
 Registrar reg(Prop{
     "C18",
     "Cases: identity values incl. 0 and FFFFFFFFh; operation sequences over a 75-letter abstract alphabet: switch-state-global {waiting, configuration}, the four selective frames x {match, +1, -1, unrelated}, configure node-id {1,127,128,255,0}, configure bit timing {table 0 valid index, undefined index 5, index 10, table 1}, store (application reports success / failure with CO_ERR_LSS_STORE or another error code), "
-    "the five inquiries, the six identify frames x {match/boundary -1/+1, unrelated}, identify-non-configured, an unknown specifier, NMT reset communication, and 22 macro letters (a complete 4-step selective or 6-step identify sequence with at most one argument perturbed to match-1 / match+1): enumerated exhaustively to depth 3 (4 in thorough) and randomly up to 100 ops with random identities, node ids (incl. 255), arbitrary arguments/DLC and NMT state changes; mode with-activate adds activate-bit-timing (switch delay 1..4 ms, both delay periods then pass without traffic) and selective / identify sequences that lack their first frame(s). "
+    "the five inquiries, the six identify frames x {match/boundary -1/+1, unrelated}, identify-non-configured, an unknown specifier, NMT reset communication, and 22 macro letters (a complete 4-step selective or 6-step identify sequence with at most one argument perturbed to match-1 / match+1): enumerated exhaustively to depth 3 (4 in thorough) and randomly up to 100 ops with random identities, node ids (incl. 255), arbitrary arguments/DLC and NMT state changes; mode with-activate adds activate-bit-timing (switch delay 1..4 ms, both delay periods then pass without traffic) and selective / identify sequences that lack their first frame(s), and an eighth of its cases have an identity object without serial number (the LSS slave is then out of service: no answer, no store - and still no LSS frame is handed on). "
     "Oracle: set-of-states reference FSM (16 admissible readings: mismatch restarts the sequence or keeps the position x shared or independent selective/identify positions x a completed sequence resets or keeps its position x an executed activate-bit-timing clears or keeps the positions; a reading is dropped when it disagrees, the check fails when none is left): LSS mode, single answer frame on 7E4h with echoed cs and documented error code / inquired value, services ignored in waiting state, COLssStore arguments, never forwarded, node id (boot-up identifier) and bit rate after reset communication equal the stored configuration. "
     "Non-trivial: configuration state reached via the selective path, or a successful store followed by a reset. Distinct = distinct decoded choice sequence.",
     {Mode{"enum", case_enum, true, 0, 0, 3, 4, 0, 0},
